@@ -301,16 +301,12 @@ func run(rawIn json.RawMessage) (common.Case, error) {
 	case "round":
 		e1, err1 := store.VerifC12DiffVarintSnappyEncode(index.NewListPostings(l), len(l))
 		e2, err2 := store.VerifC12DiffVarintSnappyStreamedEncode(index.NewListPostings(l), len(l))
-		if (rawErr != nil) != (err1 != nil) || (rawErr != nil) != (err2 != nil) {
-			return c, fmt.Errorf("the three encoders disagree on failing: %v %v %v", rawErr, err1, err2)
-		}
-		if rawErr != nil {
+		if rawErr != nil || err1 != nil || err2 != nil {
+			if ok || rawErr == nil || err1 == nil || err2 == nil {
+				return encodeFailed(c, in.L, ok, rawErr, err1, err2), nil
+			}
 			c.Coq = common.App("CRound", nlist(in.L), common.None, outCoq(nil, false), "[]", outCoq(nil, false))
 			c.Obs = map[string]any{"encode_error": true}
-			if ok {
-				c.GoPred = "encoder rejected a sorted list"
-				c.Sig = "encode-error"
-			}
 			return c, nil
 		}
 		// decodePostings dispatches on the header, as the cache read path does
@@ -349,7 +345,7 @@ func run(rawIn json.RawMessage) (common.Case, error) {
 		return c, nil
 	case "split":
 		if rawErr != nil {
-			return c, fmt.Errorf("split case needs a sorted list")
+			return encodeFailed(c, in.L, ok, rawErr, nil, nil), nil
 		}
 		tot := 0
 		var lens []int
@@ -378,11 +374,11 @@ func run(rawIn json.RawMessage) (common.Case, error) {
 		return c, nil
 	case "seek", "big":
 		if rawErr != nil {
-			return c, fmt.Errorf("seek case needs a sorted list")
+			return encodeFailed(c, in.L, ok, rawErr, nil, nil), nil
 		}
 		e1, err := store.VerifC12DiffVarintSnappyEncode(index.NewListPostings(l), len(l))
 		if err != nil {
-			return c, err
+			return encodeFailed(c, in.L, ok, nil, err, nil), nil
 		}
 		var e2 []byte
 		var lens []int
@@ -394,7 +390,7 @@ func run(rawIn json.RawMessage) (common.Case, error) {
 		} else {
 			e2, err = store.VerifC12DiffVarintSnappyStreamedEncode(index.NewListPostings(l), len(l))
 			if err != nil {
-				return c, err
+				return encodeFailed(c, in.L, ok, nil, nil, err), nil
 			}
 			chunks, err := dataChunks(e2, hdrS)
 			if err != nil {
@@ -465,6 +461,21 @@ func run(rawIn json.RawMessage) (common.Case, error) {
 		return c, nil
 	}
 	return c, fmt.Errorf("bad kind %q", in.Kind)
+}
+
+// encodeFailed: an encoder refused a sorted list, or the three encoders do not
+// agree on refusing this list. Reported as a failing case (raw = None).
+func encodeFailed(c common.Case, l []uint64, sorted bool, e0, e1, e2 error) common.Case {
+	c.Coq = common.App("CRound", nlist(l), common.None, outCoq(nil, false), "[]", outCoq(nil, false))
+	c.Obs = map[string]any{"encode_error": map[string]bool{"noheader": e0 != nil, "dvs": e1 != nil, "dss": e2 != nil}}
+	if sorted {
+		c.GoPred = "an encoder rejected a sorted list"
+		c.Sig = "encode-error"
+	} else {
+		c.GoPred = "the encoders disagree on rejecting an unsorted list"
+		c.Sig = "encoders-disagree"
+	}
+	return c
 }
 
 // ---- generators ------------------------------------------------------------
